@@ -200,6 +200,7 @@ class Check:
         for k, v in s["excluded"].items():
             self.merged.exclude(k, v)
         self.merged.nontrivial.update(s["nontrivial"])
+        self.merged.enumerated_nontrivial += s.get("enumerated_nontrivial", 0)
         for smp in s["samples"][-3:]:
             if len(self.merged.samples) < 8:
                 self.merged.samples.append(smp)
@@ -214,7 +215,7 @@ class Check:
             errf = open(os.path.join(self.bdir, "w%d.err" % i), "w")
             cmd = self.worker_cmd(out, ["--seed", str(derive_seed(self.seed, self.pid, i)),
                                         "--examples", str(b["examples"]), "--lastcase", last,
-                                        "--index", str(i)])
+                                        "--index", str(i), "--nworkers", str(b["workers"])])
             p = subprocess.Popen(cmd, cwd=ROOT, env=self.env, stdout=subprocess.DEVNULL, stderr=errf,
                                  preexec_fn=_limit_stack)
             procs.append((i, p, out, last, errf))
@@ -422,7 +423,9 @@ class Check:
             log("[%s] WARNING: empty generator classes: %s" % (self.pid, gaps))
         cov = {
             "evaluations": int(self.merged.evaluations + self.fuzz_execs),
-            "distinct_nontrivial": len(self.merged.nontrivial),
+            "distinct_nontrivial": len(self.merged.nontrivial) + int(self.merged.enumerated_nontrivial),
+            "distinct_nontrivial_by_hash": len(self.merged.nontrivial),
+            "distinct_nontrivial_by_enumeration": int(self.merged.enumerated_nontrivial),
             "rule": self.prop.RULE,
             "samples": self.merged.samples[:10],
             "hypothesis_cases": int(self.merged.evaluations),
